@@ -58,8 +58,18 @@ MCAMetaL == MCAMetaS \cup {{[a |-> ZZ, kv |-> KV("_", "_", "r3")]},
 TxOf(vs, bs, ams) == {[k |-> "tx", ver |-> v, tpl |-> b.tpl, post |-> b.post, ameta |-> am] : v \in vs, b \in bs, am \in ams}
 MCTxMenuS == TxOf(MCVers, MCBodies, MCAMetaS)
 MCTxMenuL == TxOf(MCVers, MCBodies, MCAMetaL)
+\* tiny menus of Schema_bfs3s.cfg (every behaviour of 3 requests: what a rejection leaves behind)
+MCSchemaMenu1 == {[k |-> "schema", v |-> "v1", chart |-> 1, tpls |-> FALSE]}
+MCTxMenuT == TxOf({"", "v1"}, {[tpl |-> "", post |-> <<Po(W, A7, 1)>>], [tpl |-> "", post |-> <<Po(W, AX, 1)>>]}, {{}})
+MCMetaMenu1 == {[k |-> "meta", ver |-> "v1", a |-> A7, kv |-> KV("m1", "_", "_")]}
 MCMetaMenu == {[k |-> "meta", ver |-> v, a |-> x.a, kv |-> x.kv] :
                    v \in MCVers, x \in {[a |-> A7, kv |-> KV("m1", "_", "_")], [a |-> ZZ, kv |-> KV("_", "_", "m3")]}}
+\* which deviations the implementation exhibits (checks/schema_common.py probes the real code and
+\* substitutes the matching one for Follow)
+MCFollowNone == {}
+MCFollowD1   == {"D1"}
+MCFollowD2   == {"D2"}
+MCFollowD1D2 == {"D1", "D2"}
 MCModes  == {"strict", "audit"}
 MCStrict == {"strict"}
 MCAudit  == {"audit"}
@@ -70,12 +80,19 @@ NodeSetOf(ch) == {[p |-> p, self |-> ch[p].self, pat |-> ch[p].pat, props |-> ch
 \* printed once: what every case of the run shares
 Header == [kind |-> "schemaheader",
            charts |-> [i \in 1..Len(ChartMenu) |-> NodeSetOf(ChartMenu[i])],
-           tpls |-> TplDefs, maxsteps |-> MaxSteps, requests |-> Cardinality(Reqs)]
+           tpls |-> TplDefs, maxsteps |-> MaxSteps, requests |-> Cardinality(Reqs),
+           \* the finite abstraction of regular expressions, checked by the harness against regexp.Match
+           \* (same field names as the header of ChartGen.tla)
+           addresses |-> Addrs, alphabet |-> UNION {{a[i] : i \in 1..Len(a)} : a \in Addrs},
+           patmatch |-> PatMatch, badpatterns |-> BadPatterns, fixed |-> FixedNames,
+           varkeys |-> VarKeys, badnames |-> BadNames]
 
 CaseOf(h) == [kind |-> "schemacase", mode |-> st.mode, steps |-> h]
 
-EmitNext == /\ Next
-            /\ (EmitAll \/ Len(hist') = MaxSteps) => PrintT(<<"CASE", ToJson(CaseOf(hist'))>>)
+EmitNext == \E r \in Reqs :
+                /\ Step(r)
+                /\ (EmitAll \/ Len(hist') = MaxSteps \/ ~OnPath(hist'[Len(hist')]))
+                       => PrintT(<<"CASE", ToJson(CaseOf(hist'))>>)
 
 ASSUME \A i \in 1..Len(ChartMenu) : Valid(ChartMenu[i])
 ASSUME PrintT(<<"CASE", ToJson(Header)>>)
